@@ -22,6 +22,8 @@ LEVEL = "other"
 def run(chk):
     cfgs = ["base", "z"]
     chk.configs = cfgs
+    chk.rule("POLY.intersect", "GetSegmentIntersection: an end point stored as the intersection under `cross == 0` lies on both lines (identically, or by the "
+             "guard's equation); the general case hands both segments to GetSegmentIntersectPt, whose result lies on both lines (polynomial normal forms)")
     chk.rule("BOUNDS.minmax", "GetBounds (behind the bounding-box shortcuts) updates min and max with every vertex, the first one included")
     chk.rule("T.location", "GetLocation(rec, pt, loc): strictly inside -> true/Inside; on the boundary -> false and an edge the point lies on; "
              "outside -> true and a side the point lies beyond; all 25 weak orderings, comparisons verified uniform")
@@ -37,6 +39,9 @@ def run(chk):
         db = AstDB(cfg)
         e3.location_table(db, chk, cfg)
         e3.bounds_update_table(db, chk, cfg)
+        from ..engines import e14_poly as e14
+        e14.rule_segment_cases(db, chk, cfg)
+        e14.rule_intersect(db, chk, cfg)
         e3.rect_shortcuts(db, chk, cfg)
         e3.lines_shortcuts(db, chk, cfg)
         e3.lines_dispatch(db, chk, cfg)
